@@ -92,6 +92,24 @@ def observables(a):
     try:
         hb = HydrogenBondsNumber.get(a)
         out["hbonds"] = {k: int(v) for k, v in hb.items()} if isinstance(hb, dict) else hb
+        # integer geometries can sit exactly on the angle / length thresholds (45 degrees, 3.5 A): such ties are decided by rounding under a generic rotation
+        from soprano.properties.linkage import HydrogenBonds
+        def _cnt(**kw):
+            fresh_ = a.copy()
+            fresh_.info.clear()
+            return {k: len(v) for k, v in HydrogenBonds.get(fresh_, **kw).items()}
+        out["_hb_tie"] = not (_cnt(max_angle=45.0 - 1e-6, max_length=3.5 - 1e-6) == _cnt(max_angle=45.0 + 1e-6, max_length=3.5 + 1e-6))
+        # ... and a hydrogen can be exactly equidistant from two candidate atoms (which of them is "closest" / "second closest" is then arbitrary)
+        from soprano.utils import minimum_periodic as _mp
+        P_ = a.get_positions()
+        hs_ = [i for i, e in enumerate(a.get_chemical_symbols()) if e == "H"]
+        cs_ = [i for i, e in enumerate(a.get_chemical_symbols()) if e in ("O", "N")]
+        for hi_ in hs_:
+            if len(cs_) >= 2:
+                dv_, _c = _mp(P_[hi_] - P_[cs_], a.get_cell())
+                dd_ = np.sort(np.linalg.norm(dv_, axis=1))[:3]
+                if np.any(np.diff(dd_) < 1e-6):
+                    out["_hb_tie"] = True
     except Exception as e:
         out["hbonds"] = "raised %s" % type(e).__name__
     if n > 1:
@@ -183,6 +201,7 @@ def judge(ob, ov, name, info, mult):
     if mult is None:
         # the sphere selection is centred on atom 0: skip it for permutations (a different atom)
         keys = [k for k in ob if not (name == "permute" and k in ("sphere", "box")) and not (name.startswith("rotate") and k == "box")
+                and not (name == "rotate-generic" and k == "hbonds" and ob.get("_hb_tie"))
                 and k != "all_finite" and not k.startswith("_")]
         if "_pair_table" in ob and "_pair_table" in ov and name in ("permute", "translate", "rotate-exact", "lattice-shifts"):
             relab = (lambda i: info["perm"].index(i)) if name == "permute" else (lambda i: i)
